@@ -1,7 +1,7 @@
 #!/usr/bin/env python3
 """Developer step (not run by the checks): write the committed pin lemma files from /repo's current sources.
 
-  PYTHONPATH=/repo /venv/bin/python gen/mkpins.py
+  PYTHONPATH=/repo /venv/bin/python gen/mkpins.py [file id ...]      (ids: gen/kernels_pins.py PINS; default all)
 
 Writes rocq/theories/Proofs/ParserPins.v, LexerPins.v, AstWriterPins.v: one reflexivity lemma per pinned function
 (gen/kernels_pins.py), with the digest written out, and one for the list of pinned names.  Run it only after the
@@ -18,19 +18,15 @@ import kernels_pins as KP  # noqa: E402
 VERIF = os.path.dirname(os.path.dirname(os.path.abspath(__file__)))
 REPO = os.environ.get('PICOTOOL_REPO', '/repo')
 
-OUT = {'T_pins_parser': ('ParserPins', 'the parser (Model/Parser.v)'),
-       'T_pins_lexer': ('LexerPins', 'the lexer (Model/Lexer.v)'),
-       'T_pins_luawriter': ('AstWriterPins', 'the Lua container and the AST writers\' walk (Model/AstWriter.v, Model/EchoWriter.v)')}
-
-
 def main():
-    for modname, rel, spec in KP.MODULES:
-        fileid = spec['file']
-        name, what = OUT[fileid]
+    only = set(sys.argv[1:])
+    for fid, modname, rel, classes, mf, name, what in KP.PINS:
+        if only and fid not in only:
+            continue
+        fileid = 'T_pins_' + fid
         tree = ast.parse(open(os.path.join(REPO, rel)).read())
-        short = fileid[len('T_pins_'):]
-        classes = {'parser': KP.PARSER_CLASSES, 'lexer': KP.LEXER_CLASSES, 'luawriter': KP.LUA_CLASSES}[short]
-        fs = KP.functions(tree, classes, module_functions=(short != 'luawriter'))
+        short = fid
+        fs = KP.functions(tree, classes, module_functions=mf)
         out = ['(* Source pins of %s: %s.\n   WRITTEN BY gen/mkpins.py (developer step) from the sources the hand-written model was compared with;\n'
                '   each lemma fails when the function it names has been edited since (digest of ast.unparse, docstrings\n'
                '   dropped; regenerated on every run into Generated/%s.v). *)\n' % (rel, what, fileid),
